@@ -16,6 +16,9 @@ pub struct Case {
     pub parts: Vec<usize>,
     /// run the sequential range API as well (site + method) — reversed/empty ranges go through a guarded subprocess
     pub rng: Option<(Site, usize, bool)>,
+    /// custom parameter set for the range API (overrides method/policy of `rng` when present)
+    #[serde(default)]
+    pub custom: Option<PSpec>,
 }
 
 fn model_days(s: NaiveDate, e: NaiveDate) -> i64 {
@@ -31,8 +34,11 @@ fn params_for(method: usize, default_policy: bool) -> Params {
 }
 
 /// compare the sequential range API with the per-day API; returns Err(detail) on mismatch
-fn rng_check(st: Option<&mut Stats>, s: NaiveDate, e: NaiveDate, site: Site, method: usize, defpol: bool) -> Result<u64, Value> {
-    let p = params_for(method, defpol);
+fn rng_check(st: Option<&mut Stats>, s: NaiveDate, e: NaiveDate, site: Site, method: usize, defpol: bool, custom: &Option<PSpec>) -> Result<u64, Value> {
+    let p = match custom {
+        Some(ps) => ps.build(),
+        None => params_for(method, defpol),
+    };
     let l = site.loc();
     let dr = DateRange::from(s..=e);
     let got = prayer_times_dt_rng(&p, l, &dr);
@@ -68,7 +74,7 @@ pub fn one(case: &Value) -> i32 {
         Err(_) => return 2,
     };
     let (site, method, defpol) = c.rng.unwrap();
-    match guarded(|| rng_check(None, s2d(&c.start), s2d(&c.end), site, method, defpol)) {
+    match guarded(|| rng_check(None, s2d(&c.start), s2d(&c.end), site, method, defpol, &c.custom)) {
         Ok(Ok(_)) => 0,
         Ok(Err(d)) => {
             println!("{}", d);
@@ -167,7 +173,7 @@ pub fn check(ctx: &Ctx, st: &mut Stats, c: &Case) {
     if let Some((site, method, defpol)) = c.rng {
         st.count("rng_calls");
         if span >= 1 {
-            match guarded(|| rng_check(None, s, e, site, method, defpol)) {
+            match guarded(|| rng_check(None, s, e, site, method, defpol, &c.custom)) {
                 Ok(Ok(days)) => {
                     st.evaluations += 1 + days;
                     st.add("rng_days_compared", days);
@@ -245,6 +251,7 @@ pub fn run(ctx: &Ctx, st: &mut Stats) {
                 end: d2s(e),
                 parts: all_parts.clone(),
                 rng: if rng { Some((site, r.int(0, 8) as usize, r.chance(0.5))) } else { None },
+                custom: None,
             };
             check(ctx, st, &c);
             st.nontrivial_key(hash64(&format!("{}{}", c.start, c.end)));
@@ -273,6 +280,14 @@ pub fn run(ctx: &Ctx, st: &mut Stats) {
             end: d2s(e),
             parts,
             rng: if rng { Some((site, r.int(0, 8) as usize, r.chance(0.3))) } else { None },
+            // a third of the range-API cases use a fully custom parameter set (offsets, intervals, angles, policy)
+            custom: if rng && k % 3 == 0 {
+                let mut ps = crate::mon::c07::gen_case(&mut r).p;
+                ps.mode = r.int(0, 3) as usize;
+                Some(ps)
+            } else {
+                None
+            },
         };
         check(ctx, st, &c);
         st.nontrivial_key(hash64(&format!("{}{}", c.start, c.end)));
@@ -309,7 +324,7 @@ pub fn run(ctx: &Ctx, st: &mut Stats) {
         st.evaluations += 1;
         let s1 = from_ce(ce(e0) + r.int(0, 1) as i32);
         let e1 = from_ce(ce(s1) + r.int(1, 40) as i32 - 1);
-        let c = Case { start: d2s(s1), end: d2s(e1), parts: vec![2, 3], rng: Some((site2, method, false)) };
+        let c = Case { start: d2s(s1), end: d2s(e1), parts: vec![2, 3], rng: Some((site2, method, false)), custom: None };
         check(ctx, st, &c);
         st.count("chained_range_calls");
         st.nontrivial_key(hash64(&format!("ch{}{}{:?}", c.start, c.end, site2)));
